@@ -61,7 +61,8 @@ Value& MODExpression::value(Context & ctx) const
       }
       if (*a1.integer() == 0)
         throw RuntimeError(EXC_RT_DIVIDE_BY_ZERO);
-      v = Value(Integer(*a0.integer() % *a1.integer()));
+      /* x % -1 is 0 for every x (INT64_MIN % -1 traps on the hardware) */
+      v = Value(Integer(*a1.integer() == -1 ? 0 : *a0.integer() % *a1.integer()));
       break;
     case Type::NUMERIC:
       if (a0.isNull() || a1.isNull())
